@@ -341,4 +341,6 @@ def run(ctx):
         ctx.run("C09-I2", "InsertionCost Add/Sub are element-wise over ALL layers (quotes are sums of layer vectors)", c09.i2_arith, floor=4)
     except (ImportError, AttributeError):
         pass
+    from . import c01 as _c01
+    ctx.run("C01-D1", "routing legs are queried in travel direction (the cached tour distance / duration feeds the fitness and the report)", _c01.d1_leg_direction, floor=4)
     ctx.run("C20-Q2", "estimate and fitness use the same measure", q2_same_measure, floor=4)
